@@ -90,7 +90,10 @@ Fixpoint words_of_bytes (fuel : nat) (bs : list N) : list N :=
 Fixpoint blocks_of_words (fuel : nat) (ws : list N) : sbbf :=
   match fuel with
   | O => []
-  | S f => if (length ws <? 8)%nat then [] else firstn 8 ws :: blocks_of_words f (skipn 8 ws)
+  | S f => match ws with
+           | w0 :: w1 :: w2 :: w3 :: w4 :: w5 :: w6 :: w7 :: r => [w0; w1; w2; w3; w4; w5; w6; w7] :: blocks_of_words f r
+           | _ => []
+           end
   end.
 Definition sbbf_of_bytes (bs : list N) : sbbf :=
   blocks_of_words (length bs) (words_of_bytes (length bs) bs).
